@@ -63,19 +63,24 @@ CODE_VERSION = json.load(open(os.path.join(SPEC, "code_version.json")))
 
 CONFIGS = {
     "quick": dict(
+        # MayClose: the block subscription may close its channel at any quiescent point (counted among the MaxOps)
         B=dict(NTx=2, MaxOps=5, MaxM=2, MaxWait=3, Outs='{"ok","mempool","xmempool","invalid"}',
-               ROuts='{"ok","confirmed","invalid"}'),
+               ROuts='{"ok","confirmed","invalid"}', MayClose=True),
         S=dict(NP=3, Thrs="{60}", Codes="{1,2}", MaxDelay=1, MaxX=0, MaxDup=1),
         # messages about another hash (reject, getdata), two peers
         S2=dict(NP=2, Thrs="{50,60}", Codes="{1,2,4}", MaxDelay=1, MaxX=2, MaxDup=1),
         # exact threshold boundary: 5 peers, 3 of 5 invalid = the default 60 % (float32(0.6) > 0.6)
         S3=dict(NP=5, MinNP=5, Ordered=True, Thrs="{60}", Codes="{1}", MaxDelay=0, MaxX=0, MaxDup=0),
+        # reject messages as (wire reject code) x (reason: each string error.go lists, an unlisted one, the empty one):
+        # two peers one after the other at threshold 50 %, so that ONE reject decides the verdict either way
+        S4=dict(NP=2, MinNP=2, Ordered=True, Thrs="{50}", Codes="{}", MaxDelay=1, MaxX=0, MaxDup=0, Msgs="{%s}" % ",".join(str(i) for i in range(1, 41))),
         # rescan slice: the rescan finds the tx in a block, relevant by input / by output only / both / not at all
         C=dict(NTx=2, MaxOps=4, MaxM=2, MaxWait=3, Outs='{"ok","invalid"}', ROuts='{"ok"}',
                Rels='{"spend","pay","both","neither"}'),
         # a rebroadcast attempt of one transaction may also end in a hard error (neither mempool nor confirmed):
         # the round goes on with the other transactions
-        BF=dict(NTx=2, MaxOps=5, MaxM=2, MaxWait=3, Outs='{"ok","mempool","invalid"}', ROuts='{"ok","confirmed","invalid"}'),
+        BF=dict(NTx=2, MaxOps=5, MaxM=2, MaxWait=3, Outs='{"ok","mempool","invalid"}', ROuts='{"ok","confirmed","invalid"}',
+                MayClose=True),
         walks=0, depth=0, keep=10, tries=8),
     "thorough": dict(
         B=dict(NTx=3, MaxOps=5, MaxM=1, MaxWait=3, Outs='{"ok","mempool","invalid"}', ROuts='{"ok","confirmed"}'),
@@ -83,6 +88,9 @@ CONFIGS = {
         # repeated messages (second getdata / second reject, also of another class) and unrelated rejects
         S2=dict(NP=3, Thrs="{60}", Codes="{1,2,4}", MaxDelay=1, MaxX=1, MaxDup=2),
         S3=dict(NP=5, MinNP=5, Ordered=True, Thrs="{60}", Codes="{1,2}", MaxDelay=1, MaxX=0, MaxDup=0),
+        # the reject-message product with three peers in any order, two thresholds, a repeated message
+        S4=dict(NP=3, MinNP=2, Ordered=False, Thrs="{50,60}", Codes="{}", MaxDelay=1, MaxX=0, MaxDup=1,
+                Msgs="{1,9,17,25,26,27,28,29,30,31,32,33,40}"),
         C=dict(NTx=2, MaxOps=5, MaxM=2, MaxWait=3, Outs='{"ok","invalid"}', ROuts='{"ok","confirmed"}',
                Rels='{"spend","pay","both","neither"}'),
         BF=dict(NTx=3, MaxOps=5, MaxM=2, MaxWait=3, Outs='{"ok","mempool","invalid"}', ROuts='{"ok","confirmed","invalid"}'),
@@ -90,7 +98,7 @@ CONFIGS = {
         # a second, smaller Broadcaster graph with every outcome class
         B2=dict(NTx=2, MaxOps=5, MaxM=2, MaxWait=3,
                 Outs='{"ok","mempool","xmempool","confirmed","invalid","fee","unknown","plain"}',
-                ROuts='{"ok","mempool","confirmed","xconfirmed","invalid","plain"}')),
+                ROuts='{"ok","mempool","confirmed","xconfirmed","invalid","plain"}', MayClose=True)),
 }
 
 ASSUMPTIONS = [
@@ -102,6 +110,11 @@ ASSUMPTIONS = [
     "while the request handler is inside a callback at most one other party waits for it (a MarkAsConfirmed "
     "caller, a buffered tick or a rebroadcast's confirmation report); Stop may come at any quiescent point",
     "handler callbacks and rebroadcast callbacks are told apart by the call stack of the Config.Broadcast invocation",
+    "after the block subscription's channel was closed the handler never blocks (its closed-channel arm is always "
+    "ready); the package logger's Warn is gated and released up to 256 times per quiescence: Go's select chooses "
+    "uniformly among ready arms, so a ready arm is missed that often with probability < 1e-20",
+    "what a reject message (wire code, reason) says - invalid / has it / refusal - is taken from bitcoind and btcd "
+    "(SendTxProps.tla: InvAll, InvSome, Hard), not from pushtx/error.go",
     "sendTransaction: 'replying peer' = a peer whose first message about the tx was getdata; 'rejected' / 'calls it "
     "invalid' = sent such a reject at any time; share = invalid rejecters / replying peers",
     "transaction ids are interchangeable only up to the dependency graph; every graph over <= NTx transactions "
@@ -117,7 +130,8 @@ def label(act):
         s = "%s(%s,%s)" % (op, act.get("tx"), act.get("out"))
     elif op == "Msg":
         k = act.get("kind")
-        s = "Msg(p%s,%s%s)" % (act.get("p"), k, act.get("code") if k == "R" else "")
+        s = "Msg(p%s,%s%s%s)" % (act.get("p"), k, act.get("code") if k == "R" else "",
+                                 "/m%s" % act.get("m") if act.get("m") else "")
     else:
         s = op
     return s + "=" + str(act.get("res"))
@@ -309,19 +323,20 @@ def run(prop_id, tier, seed, replay=None):
             binv = ["TypeOK", "Quiescent", "SemInv", "SortedInv", "IdleServes"] + (
                 ["NoViolation"] if CODE_VERSION["FixMarkQuit"] else [])
             sinv = ["TypeOK"] + (["NoViolation"] if CODE_VERSION["FixRejectFromReplier"] else [])
-            bconst = dict(FixMarkQuit=CODE_VERSION["FixMarkQuit"], Fine=False, Rels="{}")
-            sconst = dict(FixRejectFromReplier=CODE_VERSION["FixRejectFromReplier"], MinNP=1, Ordered=False)
+            bconst = dict(FixMarkQuit=CODE_VERSION["FixMarkQuit"], Fine=False, Rels="{}", MayClose=False)
+            sconst = dict(FixRejectFromReplier=CODE_VERSION["FixRejectFromReplier"], MinNP=1, Ordered=False, Msgs="{}")
             runs = {}
             for key in ("B", "B2", "C"):
                 if key in cfg:
                     runs[key.lower()] = ("Broadcaster", dict(bconst, **cfg[key]), binv)
-            for key in ("S", "S2", "S3"):
+            for key in ("S", "S2", "S3", "S4"):
                 if key in cfg:
                     runs[key.lower()] = ("SendTx", dict(sconst, **cfg[key]), sinv)
             with concurrent.futures.ThreadPoolExecutor(max_workers=3 if tier == "thorough" else 6) as ex:
                 fb = {k: ex.submit(builders[k], sc) for k in ("b", "s")}
                 fm = {k: ex.submit(model, v[0], v[1], os.path.join(big, "tlc-" + k), v[2]) for k, v in runs.items()}
-                ff = ex.submit(model_fine, dict(cfg["BF"], FixMarkQuit=CODE_VERSION["FixMarkQuit"], Rels="{}"),
+                ff = ex.submit(model_fine, dict(dict(MayClose=False), **dict(cfg["BF"], FixMarkQuit=CODE_VERSION["FixMarkQuit"],
+                                                                            Rels="{}")),
                                os.path.join(big, "tlc-fine"))
                 bins = {k: f.result() for k, f in fb.items()}
                 models = {k: f.result() for k, f in fm.items()}
@@ -373,7 +388,7 @@ def run(prop_id, tier, seed, replay=None):
         extra = {"states": max(1, sum(t.distinct for k, t in tlcs.items() if k != "b-small-steps")),
                  "traces_validated_against_impl": n_paths, "replayed_paths": n_paths, "replayed_steps": n_steps,
                  "traces_judged_again_by_tlc_on_observed_values": len(all_obs),
-                 "config": {k: v for k, v in cfg.items() if k in ("B", "S", "B2", "S2", "S3", "C", "BF")}, "code_version": CODE_VERSION,
+                 "config": {k: v for k, v in cfg.items() if k in ("B", "S", "B2", "S2", "S3", "S4", "C", "BF")}, "code_version": CODE_VERSION,
                  "replay_stats": stats,
                  "edges_not_hit_because_the_code_chose_otherwise": sum(s.get("not_hit_scheduling", 0) for s in stats.values()),
                  "edges_only_reachable_through_model_violation": sum(
